@@ -9,7 +9,7 @@ def run_C16(ctx, rep):
 def run_C17(ctx, rep):
     agg_rules.check_L9(ctx, rep, ['aggregators'], partial=True)
     agg_rules.check_L11(ctx, rep)
-    rep.floor('L9', 1, 'panicking index operations in ascent::aggregators')
+    rep.floor('L11.percentile', 2, 'ordering step and rank selection of percentile')
     rep.floor('L11.empty', 7, 'aggregators')
 
 
@@ -88,6 +88,7 @@ def run_C12(ctx, rep):
     rep.floor('L23', 10)
     byods_rules2.check_L22(ctx, rep, 'adaptor::bin_rel_to_ternary')
     byods_rules2.check_L29(ctx, rep, 'trrel_union_find_binary_ind')
+    byods_rules2.check_L30(ctx, rep)
     byods_rules2.check_L28(ctx, rep, ['trrel_union_find_binary_ind', 'trrel_union_find'])
     rep.floor('L29', 3)
     for sc in ('adaptor::bin_rel_to_ternary', 'adaptor::bin_rel::'):
@@ -174,7 +175,7 @@ def run_C07(ctx, rep):
 
 
 def run_C08(ctx, rep):
-    gen_driver.run_twins(ctx, rep, lambda n, k: n.replace('_par', '') in ('t_mac_sugar', 't_macn_sugar', 't_mach_sugar', 't_macd_sugar', 't_maca_sugar', 't_macx_sugar', 't_macs_sugar', 't_macf_sugar'), floors={'T.L': 16})
+    gen_driver.run_twins(ctx, rep, lambda n, k: n.replace('_par', '') in ('t_mac_sugar', 't_macn_sugar', 't_mach_sugar', 't_macd_sugar', 't_maca_sugar', 't_macx_sugar', 't_macs_sugar', 't_macf_sugar', 't_macb_sugar'), floors={'T.L': 18})
     gen_driver.run_tv(ctx, rep, only_tags=['twin'], floors={'R1': 40})
     witness_rules.run_witnesses(ctx, rep, ctx.tier, kinds=('macro_self_rec', 'macro_mutual_rec', 'macro_head_rec', 'macro_rec3', 'macro_rec_in_disj', 'macro_double_rec_head', 'macro_double_rec_disj', 'macro_double_rec_body'))
     macro_rules.check_M2(ctx, rep)
@@ -366,7 +367,8 @@ PROPS = {
                        'union-find backed merge, L16 find follows the subsumption chain, L17 sibling agreement of set_of / rev_set_of on '
                        'canonicalising class ids, L21 operand cover of the closure loop. L18 the two write paths of a write view update the same parts of the structure; L19 every reverse map is shifted new->delta->total under a guard on its own field (abstract interpretation over the three versions); L22 because the per-key merge derives pairs, the delta\'s reverse maps are completed from the per-key deltas; L20 add/insert report true on every path that changed the structure; L23 size estimates divide only by counts that are non-zero by construction; L24 iter_all is not weaker than a filtering index_get; L4b the move_*_contents helpers drain `from` completely into `to`; '
                        'L25 the delta views admit a pair inside one class and the merge seeds the reflexive pair of first-mentioned elements; '
-                       'L26 no assertion on the total is reachable with the fresh default delta the adaptor passes with an occupied total. '
+                       'L26 no assertion on the total is reachable with the fresh default delta the adaptor passes with an occupied total; '
+                       'L30 every scan of the union-find total enumerates from a field add_node_new writes (complete registry). '
                        'NOT decided: TrRelUnionFind itself, the New/Delta/Total bookkeeping beyond these rules; panic freedom only for the two '
                        'shapes of L23 and L26.',
         'assumptions': ['TrRelUnionFind::add / add_set_connection are correct on values', 'no panic other than the two decided shapes'],
